@@ -198,6 +198,7 @@ def check_function(run, rule, body, rep):
         rep.loops += 1
         loc = f"{body.file}:{body.blocks[h]['term'].get('line') or body.line}"
         problems = []
+        unknown = []
         for p in iter_paths:
             rep.iter_paths += 1
             reads = entry_reads(p)
@@ -222,7 +223,12 @@ def check_function(run, rule, body, rep):
                     if c != 1:
                         problems.append(f'cursor `{name}` advances by {c} × the length of one entry')
                     if E not in by_entry:
-                        problems.append(f'cursor `{name}` advances by the length of an entry that was not read on this path ({show(E)[:60]})')
+                        # an entry taken out of a collection this rule does not track (filled by a helper, iterated with adaptors):
+                        # which buffer it was read from is unknown
+                        if any(s_[0] == 'call' and canon(s_[1]).split('::')[-1] in ('next', 'pop_front', 'pop', 'get', 'index', 'remove', 'next_back') for s_ in subterms(E)):
+                            unknown.append(f'cursor `{name}` advances by the length of an entry taken from a collection whose contents are not tracked ({show(E)[:60]})')
+                        else:
+                            problems.append(f'cursor `{name}` advances by the length of an entry that was not read on this path ({show(E)[:60]})')
                         continue
                     B, off = by_entry[E]
                     # the cursor must index the same buffer the entry was read from (when we know which buffer it indexes)
@@ -278,6 +284,8 @@ def check_function(run, rule, body, rep):
                 if x not in uniq:
                     uniq.append(x)
             run.violation(rule, body.path, f'loop@{loop_ordinal(loops, h)}', '; '.join(uniq[:3]), loc)
+        elif unknown:
+            run.undecided(rule, body.path, f'loop@{loop_ordinal(loops, h)}', '; '.join(sorted(set(unknown))[:2]), loc)
         else:
             run.proved(rule, body.path, f'loop@{loop_ordinal(loops, h)}', f'{len(iter_paths)} iteration path(s): entry and payload cursors advance in step with the entries read', loc)
     return found
